@@ -188,13 +188,13 @@ func tryReplay(eng *Engine, q *Query, model map[string]string) *replayOutcome {
 				if f.term == "" || strings.Contains(f.lf.name, ".") {
 					continue
 				}
-				switch v := vals[f.term].(type) {
-				case string:
+				v := fmt.Sprint(vals[f.term])
+				if kindOf(f.lf.ty) == KStr {
 					fs = append(fs, fmt.Sprintf("%s: unhex(%q)", f.lf.name, hex.EncodeToString([]byte(v))))
 					pin = append(pin, app("=", f.term, smtStr(v)))
-				default:
-					fs = append(fs, fmt.Sprintf("%s: %v", f.lf.name, v))
-					pin = append(pin, app("=", f.term, smtInt(fmt.Sprint(v))))
+				} else {
+					fs = append(fs, fmt.Sprintf("%s: %s", f.lf.name, v))
+					pin = append(pin, app("=", f.term, smtInt(v)))
 				}
 			}
 			decl = append(decl, fmt.Sprintf("\t%s := &%s{%s}", a.name, et.(*types.Named).Obj().Name(), strings.Join(fs, ", ")))
